@@ -332,6 +332,57 @@ theorem C52_witness_star_with_credentials :
 example : ruleOk { witnessRule with origins := [sPctOrigin], creds := true, methods := [sStar], headers := [sStar] } = true := by
   decide
 
+/-! ### hot reloads -/
+
+theorem foldl_update (cs : List Conf) (t : List (Str × List Rule)) :
+    cs.foldl update t = match cs.reverse.find? confOk with
+      | some c => c.products
+      | none => t := by
+  induction cs generalizing t with
+  | nil => rfl
+  | cons c cs ih =>
+    simp only [List.foldl_cons, List.reverse_cons, List.find?_append]
+    rw [ih]
+    cases hf : cs.reverse.find? confOk with
+    | some c' => rfl
+    | none =>
+      simp only [Option.none_or, List.find?_cons, List.find?_nil, update]
+      cases hc : confOk c <;> simp
+
+/-- **C52_reload_in_force**: whatever the history of reloads (accepted and rejected configurations, same or
+    different version strings, products added / removed / changed), the rules the handlers see for a product
+    are exactly those of the LAST ACCEPTED configuration; nothing of an earlier configuration survives. -/
+theorem C52_reload_in_force (cs : List Conf) (product : Str) :
+    lookup (tableAfter cs) product = rulesInForce cs product := by
+  unfold tableAfter rulesInForce inForce
+  rw [foldl_update]
+  cases cs.reverse.find? confOk with
+  | some c => rfl
+  | none => rfl
+
+/-- **C52_reload_last_conf**: after any history, a successfully loaded configuration alone decides the answer. -/
+theorem C52_reload_last_conf (cs : List Conf) (c : Conf) (hok : confOk c = true)
+    (product : Str) (req : Req) (backend : Hdr) :
+    handleH (cs ++ [c]) product req backend = handleH [c] product req backend := by
+  unfold handleH
+  rw [C52_reload_in_force, C52_reload_in_force]
+  unfold rulesInForce inForce
+  simp [hok]
+
+/-- a rejected configuration changes nothing -/
+theorem C52_reload_rejected_keeps (cs : List Conf) (c : Conf) (hbad : confOk c = false)
+    (product : Str) (req : Req) (backend : Hdr) :
+    handleH (cs ++ [c]) product req backend = handleH cs product req backend := by
+  unfold handleH
+  rw [C52_reload_in_force, C52_reload_in_force]
+  unfold rulesInForce inForce
+  simp [hbad]
+
+/-- a product withdrawn by a reload gets no CORS header any more (the case the merged-map defect broke) -/
+example : (handleH [{ version := [1], products := [([0x70], [{ witnessRule with origins := [sPctOrigin] }])] },
+                    { version := [1], products := [] }]
+    [0x70] witnessReq {}).2 = {} := by decide
+
 /-! Non-vacuity -/
 example : Granted true [witnessRule] { witnessReq with origin := [0x61] } :=
   ⟨by decide, witnessRule, by decide, by decide⟩
